@@ -535,6 +535,19 @@ def _check_error_form(model, res, m, f, root, val, stmt):
             r = model.resolve_attr_chain(m, inner) if isinstance(inner, (ast.Name, ast.Attribute)) else None
             if r and r[0] == 'const' and isinstance(r[3], ast.Call):
                 ok = True
+    elif isinstance(val, ast.Call) and isinstance(val.func, (ast.Name, ast.Attribute)):
+        # a package helper every return of which is str(from_message(<its parameter>))
+        r = model.resolve_attr_chain(m, val.func)
+        if r and r[0] == 'func':
+            hm, hf = r[1], r[2]
+            rets = [x for x in walk_no_defs(hf) if isinstance(x, ast.Return)]
+            good = bool(rets)
+            for x in rets:
+                v = x.value
+                good = good and isinstance(v, ast.Call) and sa.call_name(v) == 'str' and len(v.args) == 1 and isinstance(v.args[0], ast.Call) \
+                    and (sa.call_name(v.args[0]) or '').split('.')[-1] == 'from_message' and len(v.args[0].args) == 1 \
+                    and isinstance(v.args[0].args[0], ast.Name) and v.args[0].args[0].id in sa.params(hf)
+            ok = good
     res.ob('R3', fmt(root), 'error := %s' % (src(val) if val is not None else '?'), ok)
     if not ok:
         res.violation('R3', '%s:%s:error-not-canonical:%s' % (root[0], root[1], _norm(src(val) if val is not None else 'x')), m.where(stmt),
@@ -709,7 +722,7 @@ def while_verdict(model, m, f, w, consts):
         return False, 'the loop variable %s is never updated in the body' % var
     # every complete path through the body performs a strict update
     strict_ids = {}
-    facts_outer = guards.facts_at(m, f, w)
+    facts_outer = guards.facts_at(m, f, w) + _caller_facts(model, m, f)
     iv = guards.interval_of(facts_outer, var, consts)
     problems = []
     for u in updates:
@@ -728,6 +741,50 @@ def while_verdict(model, m, f, w, consts):
         if not any(id(st) in strict_ids for st in p.stmts()):
             return False, 'a path through the loop body (%s) does not update %s' % (p.describe(), var)
     return True, 'W2 monotone counter: ' + '; '.join(sorted(set(strict_ids.values())))
+
+
+def _caller_facts(model, m, f):
+    """Preconditions a private helper inherits from its call sites: when every call of ``f`` in the package passes plain names,
+    the comparison facts that dominate *each* call, restated on the parameters (only facts all call sites agree on)."""
+    from .. import ctx as ctxmod
+    if not isinstance(f, ast.FunctionDef) or m.parent(f) is not m.tree or f.args.vararg or f.args.kwarg:
+        return []
+    if any('register_for' in src(d) for d in f.decorator_list):
+        return []
+    try:
+        cg = ctxmod.get(model).cg
+    except Exception:
+        return []
+    key = (m.name, f.name)
+    ps = sa.params(f)
+    per_site = []
+    for ck, (cm, cf) in cg.funcs.items():
+        for n in walk_no_defs(cf):
+            if isinstance(n, ast.Call) and key in cg.sites.get((ck, id(n)), set()):
+                if n.keywords or len(n.args) > len(ps) or not all(isinstance(a, ast.Name) for a in n.args):
+                    return []
+                ren = dict((a.id, ps[i]) for i, a in enumerate(n.args))
+                facts = []
+                for atom, truth in guards.facts_at(cm, cf, n):
+                    names = set(x.id for x in ast.walk(atom) if isinstance(x, ast.Name))
+                    cconsts = guards.module_consts(cm, model)
+                    free = [nm for nm in names if nm not in ren and nm not in cconsts]
+                    if not names & set(ren) or free:
+                        continue
+                    import copy as _copy
+                    a2 = _copy.deepcopy(atom)
+                    for x in ast.walk(a2):
+                        if isinstance(x, ast.Name) and x.id in ren:
+                            x.id = ren[x.id]
+                    facts.append((a2, truth))
+                per_site.append(facts)
+    if not per_site:
+        return []
+    common = per_site[0]
+    for other in per_site[1:]:
+        keys = set((src(a), t) for a, t in other)
+        common = [(a, t) for a, t in common if (src(a), t) in keys]
+    return common
 
 
 def _loop_var(test, consts):
